@@ -1,4 +1,4 @@
-import RpycModel.Srv.RegistryAlive
+import RpycModel.Srv.RegistryFrame
 /-
 C18 — the registry reflects exactly the live registrations and cannot be knocked over.
 
@@ -36,6 +36,23 @@ theorem reregister_within_pruning : Gen.reregisterIntervalMs < Gen.defaultPrunin
 /-- `TCPRegistryServer._recv` closes the sockets of requests that got no reply before it accepts again
 (observed on the live method; reverting that repair breaks this) -/
 theorem tcp_recv_closes_unreplied : Gen.tcpRecvClosesUnreplied = true := by decide
+
+/-- **Interpreter obligation.**  Every brine value can be a dict key on the interpreter the check runs under
+(`hash()` measured per type; `slice` is hashable from Python 3.12 on).  The model has the other branch too: with an
+unhashable `(host, port)` `cmd_register` is refused after `_add_service` has already created an empty inner dict
+(`registerUnhashable`), i.e. a refused datagram would alter the table.  `malformed_is_noop`,
+`wellformed_changes_only_named` and the rest are proved through this fact and break with it. -/
+theorem all_brine_values_hashable : Gen.allBrineValuesHashable = true := brine_values_hashable
+
+/-- what the model does where that obligation fails (Python < 3.12, a `slice` port): refused, no notification, and an
+empty inner dict left under the upper-cased first name -/
+example : (registerUnhashable ⟨id, id, id⟩ [] [[122, 122]]).sv.length = 1
+    ∧ (registerUnhashable ⟨id, id, id⟩ [] [[122, 122]]).notes.length = 0 := by decide +kernel
+
+/-- **Interpreter obligation.**  `_work`'s two `self.logger.warn(...)` calls (wrong magic, unknown command) sit outside
+every `try`; with a real `logging.Logger` they do not raise on this interpreter (observed; `Logger.warn` is removed in
+Python 3.13, where the first such datagram would end the loop — the model's `warnStep` carries that). -/
+theorem logger_warn_survives : Gen.realLoggerSurvivesWarn = true := real_logger_survives_warn
 
 /-- what `_recv` hands to `_work` is at most `MAX_DGRAM_SIZE` bytes, far below what `struct` can frame -/
 theorem datagram_bounded (d : Bytes) : (udpRecv d).length ≤ Gen.maxDgramSize ∧ Gen.maxDgramSize < 2 ^ 32 := by
@@ -180,6 +197,59 @@ theorem wellformed_changes_only_named (env : Env) (pruning : Int) (sv : Services
   rw [(workStep_good env pruning sv host dgram now hinv).refines n x] at hch
   exact absApply_frame pruning now (view sv) _ n x hch
 
+/-- **Whose registrations a datagram can touch, stated without the model's notion of meaning.**  For EVERY datagram:
+a pair whose abstract value differs after the step either has an address `(host, port)` of the SENDER's own host, or
+was stale (refresh older than `now - pruning`) and is gone.  So no datagram, however malformed, alters a live
+registration of another host. -/
+theorem touches_only_own_or_stale (env : Env) (pruning : Int) (sv : Services) (host : Val) (dgram : Bytes) (now : Int)
+    (hinv : Inv sv) (n x : List Nat)
+    (hch : view (workStep env pruning sv host dgram now).sv n x ≠ view sv n x) :
+    (∃ port, x = addrCode (host, port))
+    ∨ (∃ t, view sv n x = some t ∧ t < now - pruning ∧ view (workStep env pruning sv host dgram now).sv n x = none) :=
+  sender_frame env pruning sv host dgram now hinv n x hch
+
+/-- **The statement's classes of malformed datagram, stated on the decoded value itself** (only C04's `load` and the
+literal shape of the value appear, not the model's unpacking / lookup helpers): undecodable bytes; a value that cannot
+be unpacked; a tuple that is not a triple; a first field that is not the magic text; a command that is not text; a
+text command that is none of the three after lower-casing; a tuple of arguments of the wrong length.  Each changes
+nothing at all: table identical, no notification, no reply, loop running. -/
+theorem not_a_command_changes_nothing (env : Env) (pruning : Int) (sv : Services) (host : Val) (d : Bytes) (now : Int) :
+    (∀ e, load d = .error e → (workStep env pruning sv host d now).Noop sv)
+    ∧ (∀ v, load d = .ok v → notIterable v = true → (workStep env pruning sv host d now).Noop sv)
+    ∧ (∀ xs, load d = .ok (.tuple xs) → xs.length ≠ 3 → (workStep env pruning sv host d now).Noop sv)
+    ∧ (∀ m c a, load d = .ok (.tuple [m, c, a]) → (∀ s, m = .str s → s ≠ Gen.magic) → (workStep env pruning sv host d now).Noop sv)
+    ∧ (∀ m c a, load d = .ok (.tuple [m, c, a]) → (∀ s, c ≠ .str s) → (workStep env pruning sv host d now).Noop sv)
+    ∧ (∀ m s a, load d = .ok (.tuple [m, .str s, a]) → strLower env s ∉ [nmQuery, nmRegister, nmUnregister] →
+        (workStep env pruning sv host d now).Noop sv)
+    ∧ (∀ m s args c, load d = .ok (.tuple [m, .str s, .tuple args]) → lookupCmd env (.str s) = some c → args.length ≠ c.2 →
+        (workStep env pruning sv host d now).Noop sv) :=
+  ⟨fun e h => noop_of_load_error env pruning sv host d now e h,
+   fun v h hv => noop_of_not_iterable env pruning sv host d now v h hv,
+   fun xs h hl => noop_of_wrong_length env pruning sv host d now xs h hl,
+   fun m c a h hm => noop_of_wrong_magic env pruning sv host d now m c a h hm,
+   fun m c a h hc => noop_of_non_text_command env pruning sv host d now m c a h hc,
+   fun m s a h hs => noop_of_unknown_command env pruning sv host d now m a s h hs,
+   fun m s args c h hc hn => noop_of_wrong_arg_count env pruning sv host d now m s args c h hc hn⟩
+
+/-- **Case-insensitive.**  A query sees only the upper-cased name: two spellings with the same `upper()` give the same
+reply, the same pruning, the same table; for ASCII names lower- or upper-casing a spelling does not change its
+`upper()`. -/
+theorem query_case_insensitive (env : Env) (pruning : Int) (sv : Services) (s1 s2 : List Nat) (now : Int) :
+    (strUpper env s1 = strUpper env s2 →
+      cmdQuery env pruning sv (.str s1) now = cmdQuery env pruning sv (.str s2) now)
+    ∧ (isAscii s1 = true → strUpper env (s1.map asciiLower) = strUpper env s1 ∧ strUpper env (s1.map asciiUpper) = strUpper env s1) :=
+  ⟨cmdQuery_congr env pruning sv s1 s2 now, strUpper_case_insensitive env s1⟩
+
+/-- a server that registers under one spelling is found, at once, by a query under any spelling with the same `upper()` -/
+theorem register_then_query_finds (env : Env) (pruning : Int) (sv : Services) (host port : Val) (s1 s2 : List Nat) (now : Int)
+    (hinv : Inv sv) (hp : 0 ≤ pruning) (hcase : strUpper env s1 = strUpper env s2) :
+    ∃ a, a ∈ answer pruning (cmdRegister env sv host (.tuple [.str s1]) port now).sv (.str (strUpper env s2)) now
+      ∧ addrCode a = addrCode (host, port) := by
+  have hv := registered_view env sv host port s1 now hinv
+  rw [hcase] at hv
+  obtain ⟨a, hm, hc⟩ := mem_innerOf_of_view _ _ _ _ hv
+  exact ⟨a, (query_members pruning _ _ now a).mpr ⟨now, hm, by omega⟩, hc⟩
+
 /-- the classes of malformed datagram the statement lists all mean `none` -/
 theorem malformed_classes (env : Env) (host : Val) :
     (∀ d e, load d = .error e → intent env host d = .none)
@@ -218,6 +288,18 @@ theorem tcp_liveness (env : Env) (pruning : Int) (fdLimit : Nat) (hfd : 0 < fdLi
     (∀ o ∈ (tcpRun env pruning fdLimit ts evs).2, o.accepted = true)
     ∧ (tcpRun env pruning fdLimit ts evs).1.clock = ts.clock + Gen.tcpServerTimeoutMs * (evs.countP isSilent) :=
   tcpRun_spec env pruning fdLimit hfd tcp_recv_closes_unreplied evs ts hc
+
+/-- **How long others wait behind silent clients, and whose patience that exceeds.**  `k` silent clients in a row cost
+exactly `k × TCPRegistryServer.TIMEOUT`; a client with rpyc's default reply timeout that queues behind them is answered
+in time iff `k ≤ silentClientsTolerated = (client default − 1 ms) / server TIMEOUT` (generated constants; with 2000 ms
+against 3000 ms that number is 0: one silent client already outlasts a default client's patience — the registry is
+delayed, not knocked over). -/
+theorem tcp_delay_and_patience (env : Env) (pruning : Int) (fdLimit : Nat) (hfd : 0 < fdLimit) (ts : TcpSt) (hc : ts.conn = [])
+    (k p : Nat) :
+    (tcpRun env pruning fdLimit ts (List.replicate k (.silent p))).1.clock = ts.clock + Gen.tcpServerTimeoutMs * k
+    ∧ (k * Gen.tcpServerTimeoutMs < Gen.tcpClientTimeoutMs ↔ k ≤ silentClientsTolerated) := by
+  refine ⟨?_, patience k⟩
+  rw [(tcp_liveness env pruning fdLimit hfd _ ts hc).2, countP_replicate_silent]
 
 theorem tcp_silent_step (env : Env) (pruning : Int) (fdLimit : Nat) (ts : TcpSt) (p : Nat) :
     (tcpStep env pruning fdLimit ts (.silent p)).1.sv = ts.sv
